@@ -41,7 +41,15 @@ CrossScript(k, a, p) ==
      CNewOp, CSetKeyOp(a, 1),
      VerifyOp(Tok(a, <<>>, Pm, Sig("valid", Native(k), Pub(k)))),
      VerifyOp(Tok(a, <<>>, Pm, Sig("valid", a, Pub(k)))) >>
+\* the same pairs when key and algorithm reach the operation through the callback instead of setkey: the floor is
+\* a property of the operation, not of the configuration call
+CbScript(k, a, p) ==
+  << OpsOp(p), LoadOp(<<k, Pub(k)>>),
+     BNewOp, BSetCbOp(IF k.alg = NONE THEN <<CbKey(0), CbAlg(a)>> ELSE <<CbKey(0)>>), GenerateOp(0),
+     CNewOp, CSetCbOp(IF k.alg = NONE THEN <<CbKey(1), CbAlg(a)>> ELSE <<CbKey(1)>>), VerifyOp([src |-> "slot", slot |-> 0]),
+     VerifyOp(Tok(a, <<>>, Pm, Sig("valid", a, Pub(k)))) >>
 C09Scripts == { Script(ka[1], ka[2], p) : ka \in Pairs, p \in Providers }
+              \cup { CbScript(ka[1], ka[2], p) : ka \in Pairs, p \in Providers }
               \cup { CrossScript(ka[1], ka[2], p) : ka \in CrossPairs, p \in Providers }
 MCSpec == ISpecWith(C09Scripts)
 =============================================================================
